@@ -22,7 +22,7 @@ CLAIMED = {
    text="Every payload handed to an outbox-bound transport and every body served by the GET handler in any fedsim run is parsed and checked for bto/bcc (activity and direct objects; handler: any object depth); a dedicated workload biases towards hidden recipients, runs Social-only / Federating-only / both, auto-accepted Follows with hidden recipients, and checks with the C02 model that the hidden recipients' inboxes are still delivered to.",
    note="Outbox-originated = transport created for an outbox IRI. Sampling, not proof.", design="5/C03"),
  "C05": dict(level="exploration", technique="deterministic simulation: seeded histories of outbox posts with a complete single-fault sweep of every seam call on a third of the cases; normalisation reference model, event-order monitor and outbox-history check",
-   text="Histories of 1-8 posts run through the real PostOutbox/Send path; the values given to Database.Create are compared with a set-semantics model of wrapping and Create normalisation; the event log must show NewID < object stores < activity store < outbox write (front, once) < first transport call with Location = id; after the history the outbox lists exactly the returned ids newest first; with any Database call failing nothing may reach the transport afterwards.",
+   text="Histories of 1-8 posts run through the real PostOutbox/Send path; the values given to Database.Create are compared with a set-semantics model of wrapping and Create normalisation; the event log must show NewID < object stores < activity store < outbox write (front, once) < first transport call with Location = id; after the history the outbox lists exactly the returned ids newest first; with any Database call failing nothing may reach the transport afterwards; a crash at a random step must leave everything that reached the wire stored and listed.",
    note="Sampling of inputs; single-fault space swept completely only for the swept cases. Two readings of 'each object having gained the activity's' are both accepted.", design="5/C05"),
  "C07": dict(level="exploration", technique="deterministic simulation: per-task trace automaton over all seam calls while 1-3 requests of the entry-point x configuration x outcome product run under a seeded schedule",
    text="Every Database, Transport and application call is attributed to the request task that made it; a monitor rejects any such call before that task's authentication succeeded and, for inbox POSTs, before its block check passed; requests classified non-ActivityPub by an independent classifier must be untouched and unhandled, and a disabled protocol must answer 405 with zero application calls.",
@@ -43,7 +43,7 @@ CLAIMED = {
    text="astool is rebuilt with each `for range map` iterating in a seeded permutation of the canonical key order; the four shipped vocabularies are regenerated under many seeds (outputs must be byte-identical to each other and syntax-tree-identical to /repo/streams), an uninstrumented run cross-checks the rewriter, and generated extension vocabularies (multiple parents across vocabularies, mixed ranges, functional/non-functional, natural-language maps, withheld-from lists) must generate identically under several seeds and compile.",
    note="Only compilation and seed-independence are claimed for extensions; 'satisfies C01/C12/C13' inherits their not-applicable. Map iteration inside dependencies (jennifer, encoding/json) is not instrumented; one range site that mutates its own map stays uncontrolled and is reported.", design="5/C15"),
  "C17": dict(level="exploration", technique="deterministic simulation: simulated federation with duplicated / concurrent deliveries of one activity under a seeded schedule, unreachable and garbled chain links, single-fault sweep on an eighth of the cases; model of the three forwarding conditions as oracle",
-   text="Activities with reply chains through embedded values and dereferenced documents are delivered 1-3 times to one or two inboxes, sequentially or interleaved; the oracle computes the three conditions from the pre-run snapshot and the fault plan and compares FilterForwarding's input, the forwarding BatchDeliver (count, recipients, payload equality with the received activity) and the number of 'seen' records; under an injected fault a request that still reports success must have forwarded.",
+   text="Activities with reply chains through embedded values and dereferenced documents are delivered 1-3 times to one or two inboxes, sequentially or interleaved; the oracle computes the three conditions from the pre-run snapshot and the fault plan and compares FilterForwarding's input, the forwarding BatchDeliver (count, recipients, payload equality with the received activity) and the number of 'seen' records; under an injected fault a request that still reports success must have forwarded; across a crash and redelivery an activity is forwarded at most once.",
    note="Recipients accepted as member ids or as their inboxes. Sampling.", design="5/C17"),
  "C19": dict(level="exploration", engine="txsim", technique="deterministic simulation of the real HttpSigTransport: its goroutines, mutexes, signer calls and HTTP calls scheduled by a seeded scheduler (build-time rewrite of go statements and sync.Mutex calls + testing/synctest), per-request response faults, real httpsig signing and verification",
    text="One transport value serves 1-3 concurrent BatchDeliver/Deliver/Dereference calls; every goroutine start, mutex acquisition, SignRequest and HttpClient.Do is a scheduling point; response status 100-599, transport errors and body read errors are injected per request; the recording signer parks inside SignRequest so that missing mutual exclusion is observed deterministically; captured requests are verified with real httpsig.",
@@ -55,7 +55,7 @@ CLAIMED = {
    text="Client Update/Delete/Add/Remove/Like/Block posts run through the real outbox path; the oracle compares member-by-member merge results, Tombstones (incl. the deleted time against the exact clock value the simulated clock handed to that request), target and liked collections in order, Block's absence from the wire, and the 400-and-no-change outcome for missing members.",
    note="Input-dominated; the simulation contributes the clock seam, the alias-free database and the wire. Sampling.", design="5/C16"),
  "C08": dict(level="exploration", technique="deterministic simulation: seeded schedule search (random walk, sticky, PCT) over 2-5 concurrent requests at Database/Transport/callback granularity; sequential-equivalence oracle, porcupine linearizability of inbox/outbox histories, deadlock detection by wait-for cycles",
-   text="Real Actor methods run as tasks under a seeded scheduler that owns every interleaving at seam granularity, with nested deliveries between two simulated servers. Each concurrent run is compared, collection by collection, with the same requests executed sequentially in every order; inbox/outbox post/read histories are checked with porcupine; duplicate deliveries are counted; a fault class checks that everything still completes when one call fails.",
+   text="Real Actor methods run as tasks under a seeded scheduler that owns every interleaving at seam granularity, with nested deliveries between two simulated servers. Each concurrent run is compared, collection by collection, with the same requests executed sequentially in every order; inbox/outbox post/read histories are checked with porcupine; duplicate deliveries are counted; a fault class checks that everything still completes when one call fails, and a crash class kills the server at a random step (locks vanish, database survives) and lets the peers redeliver.",
    note="Sampling of schedules (seeded), not exhaustive enumeration. Assumes SimDB's per-id mutual exclusion and copy semantics. Sequential reference is the library itself run one request at a time.",
    design="5/C08"),
 }
